@@ -344,13 +344,15 @@ type planGen struct {
 	budget  int                // remaining property elements
 	feat    map[string]int
 	breakWF bool // one deliberate inconsistency has been planted
+	liProb  int  // > 0: probability (percent) of rdf:li as the name of a property element (wide family)
+	simple  bool // property elements without nested content only (wide family)
 }
 
 var (
-	basePool   = []string{"http://b.example/d/doc", "http://b.example/d/e/f.rdf", "http://other.example/", "http://b.example/d/doc?q=1", "http://b.example/a/b/c/d", "http://b.example/d/doc#top"}
-	relBases   = []string{"sub/", "../up/doc", "x", "./", "/rooted/base", "//auth.example/p/q", "e/f/g?x=y", "../../"}
-	absIRIs    = []string{"http://a.example/x", "http://b.example/d/e/f", "http://b.example/d/doc", "urn:x:y", "http://b.example/d/doc#frag", "mailto:a@b.example", "http://a.example/é/ü?k=v#f", "http://a.example/a%20b", "http://b.example/", "http://b.example/d/"}
-	relRefs    = []string{"name", "sub/name", "../up", "./here", "#frag", "", "?q=1", "/rooted", "//other.example/p", "../../x", "a/./b/../c", "#a", "x#y", "é", ".", "..", "a//b", "doc",
+	basePool = []string{"http://b.example/d/doc", "http://b.example/d/e/f.rdf", "http://other.example/", "http://b.example/d/doc?q=1", "http://b.example/a/b/c/d", "http://b.example/d/doc#top"}
+	relBases = []string{"sub/", "../up/doc", "x", "./", "/rooted/base", "//auth.example/p/q", "e/f/g?x=y", "../../"}
+	absIRIs  = []string{"http://a.example/x", "http://b.example/d/e/f", "http://b.example/d/doc", "urn:x:y", "http://b.example/d/doc#frag", "mailto:a@b.example", "http://a.example/é/ü?k=v#f", "http://a.example/a%20b", "http://b.example/", "http://b.example/d/"}
+	relRefs  = []string{"name", "sub/name", "../up", "./here", "#frag", "", "?q=1", "/rooted", "//other.example/p", "../../x", "a/./b/../c", "#a", "x#y", "é", ".", "..", "a//b", "doc",
 		// a colon that belongs to the query or fragment, not to a scheme (RFC 3986 4.2 only restricts the first path segment)
 		"#sec:1", "?t=12:30", "item?ref=urn:x", "p/q:r", "./a:b", "#a:b/c"}
 	nsPool     = []string{"http://e/", "http://example.org/ns#", "http://e/", "urn:p:", "http://e/sub/", "http://www.w3.org/2000/01/rdf-schema#", "http://é.example/ns/"}
@@ -504,11 +506,23 @@ func (g *planGen) id(env genEnv) *PId {
 }
 
 func (g *planGen) pname(li *int) PName {
+	liP := 12
+	if g.liProb > 0 {
+		liP = g.liProb
+	}
 	switch {
-	case g.r.Chance(12):
+	case g.r.Chance(liP):
 		*li++
 		g.f("rdf:li")
 		return PName{Li: true, P: fmt.Sprintf("%s_%d", rdfNS, *li)}
+	case g.liProb > 0 && g.r.Chance(50):
+		// explicit rdf:_n between rdf:li elements: does not advance the counter, may collide with it
+		g.f("name:rdf-_n-among-li")
+		n := "_" + fmt.Sprint(vh.Pick(g.r, []int{1, 2, 9, 10, 11, 12, 99, 100, 101, 1000, *li, *li + 1, *li + 2}))
+		if n == "_0" {
+			n = "_1"
+		}
+		return PName{NS: rdfNS, Name: n, P: rdfNS + n}
 	case g.r.Chance(12):
 		g.f("name:rdf-ns")
 		n := vh.Pick(g.r, rdfProps)
@@ -632,7 +646,7 @@ func (g *planGen) prop(env genEnv, s string, li *int, depth int) *PProp {
 		p.ID = g.id(env)
 	}
 	kind := g.r.Intn(100)
-	if depth >= 4 && kind >= 55 {
+	if (depth >= 4 || g.simple) && kind >= 55 {
 		kind = g.r.Intn(55)
 	}
 	emit := func(o string) {
@@ -732,6 +746,195 @@ func (g *planGen) prop(env genEnv, s string, li *int, depth int) *PProp {
 	return p
 }
 
+// ---------------------------------------------------------------- the "wide" family
+//
+// Size boundaries at low frequency: node elements with 9, 10, 11, 99, 100, 101 (and other counts of)
+// rdf:li children, mixed with explicit rdf:_n and with a nested parseType="Resource" that has its own
+// counter; many property elements; many property attributes; long character data and attribute values
+// (around the 4096 / 65536 byte marks of buffered readers); nesting to depth 50.
+
+var (
+	liCounts   = []int{9, 10, 11, 99, 100, 101}
+	textMarks  = []int{255, 256, 4095, 4096, 4097, 8192, 65535, 65536, 65537}
+	wideModes  = []string{"li", "li", "props", "attrs", "text", "deep"}
+	deepLevels = []int{12, 25, 50}
+)
+
+func (g *planGen) count(marks []int, max int) int {
+	if g.r.Chance(70) {
+		return vh.Pick(g.r, marks)
+	}
+	return 1 + g.r.Intn(max)
+}
+
+// longText: n units of the text alphabet (n counts units, the byte length lands near the mark)
+func (g *planGen) longText(n int) string {
+	var sb strings.Builder
+	for sb.Len() < n {
+		if g.r.Chance(80) {
+			sb.WriteString(vh.Pick(g.r, []string{"a", "b", " ", "x", "1"}))
+		} else {
+			sb.WriteString(vh.Pick(g.r, textAlpha))
+		}
+	}
+	return sb.String()
+}
+
+// liRun appends count simple property elements, mostly rdf:li, to props (subject s, counter li).
+func (g *planGen) liRun(env genEnv, s string, li *int, count, depth int, props *[]*PProp) {
+	saveP, saveS := g.liProb, g.simple
+	g.liProb, g.simple = 85, true
+	for i := 0; i < count; i++ {
+		*props = append(*props, g.prop(env, s, li, depth))
+	}
+	g.liProb, g.simple = saveP, saveS
+}
+
+func (g *planGen) wideNode(env genEnv, mode string) *PNode {
+	g.f("wide:" + mode)
+	n := &PNode{}
+	n.Sc, env = g.scope(env, 8, 15)
+	var s string
+	n.Subj, s = g.subj(env)
+	li := 0
+	switch mode {
+	case "li":
+		count := g.count(liCounts, 40)
+		nestedAt := -1
+		if g.r.Chance(50) {
+			nestedAt = g.r.Intn(count + 1)
+		}
+		before := count
+		if nestedAt >= 0 {
+			before = nestedAt
+		}
+		g.liRun(env, s, &li, before, 1, &n.Props)
+		if nestedAt >= 0 {
+			// parseType="Resource" in the middle: its children count from 1 again, and the outer
+			// counter goes on afterwards
+			p := &PProp{Kind: "ptRes"}
+			var e2 genEnv
+			p.Sc, e2 = g.scope(env, 6, 15)
+			g.liProb = 85
+			p.Nm = g.pname(&li)
+			g.liProb = 0
+			p.N = g.next
+			g.next++
+			g.triples = append(g.triples, wTriple(s, p.Nm.P, wGen(p.N)))
+			li2 := 0
+			g.liRun(e2, wGen(p.N), &li2, g.count(liCounts, 15), 2, &p.Props)
+			n.Props = append(n.Props, p)
+			g.f("wide:li-nested-parseType-Resource")
+			g.liRun(env, s, &li, count-before, 1, &n.Props)
+		}
+	case "props":
+		count := g.count([]int{50, 64, 100, 128, 256, 300}, 80)
+		saveB := g.budget
+		g.budget = 10
+		for i := 0; i < count; i++ {
+			n.Props = append(n.Props, g.prop(env, s, &li, 3))
+		}
+		g.budget = saveB
+	case "attrs":
+		count := g.count([]int{16, 32, 64, 100, 128}, 60)
+		for i := 0; i < count; i++ {
+			ns, name := vh.Pick(g.r, nsPool), fmt.Sprintf("%s%d", vh.Pick(g.r, []string{"a", "p-", "é", "_"}), i)
+			val := g.text(0)
+			n.PAttrs = append(n.PAttrs, PAttr{NS: ns, Name: name, Val: val, Lang: env.lang})
+			g.triples = append(g.triples, wTriple(s, ns+name, wPlain(val, env.lang)))
+		}
+		// the same on an empty property element with rdf:resource
+		p := &PProp{Kind: "res"}
+		var e2 genEnv
+		p.Sc, e2 = g.scope(env, 6, 15)
+		p.Nm = g.pname(&li)
+		p.IRI, p.Ref = g.ref(e2)
+		g.triples = append(g.triples, wTriple(s, p.Nm.P, wIRI(p.IRI)))
+		for i := 0; i < count/2; i++ {
+			ns, name := vh.Pick(g.r, nsPool), fmt.Sprintf("q%d", i)
+			val := g.text(0)
+			p.PAttrs = append(p.PAttrs, PAttr{NS: ns, Name: name, Val: val, Lang: e2.lang})
+			g.triples = append(g.triples, wTriple(wIRI(p.IRI), ns+name, wPlain(val, e2.lang)))
+		}
+		n.Props = append(n.Props, p)
+	case "text":
+		// long character data, long attribute value, long rdf:about reference
+		val := g.longText(g.count(textMarks, 3000))
+		n.PAttrs = append(n.PAttrs, PAttr{NS: "http://e/", Name: "long", Val: val, Lang: env.lang})
+		g.triples = append(g.triples, wTriple(s, "http://e/long", wPlain(val, env.lang)))
+		for i := 1 + g.r.Intn(2); i > 0; i-- {
+			p := &PProp{Kind: "lit"}
+			var e2 genEnv
+			p.Sc, e2 = g.scope(env, 6, 15)
+			p.Nm = g.pname(&li)
+			p.Lex, p.Lang = g.longText(g.count(textMarks, 3000)), e2.lang
+			g.triples = append(g.triples, wTriple(s, p.Nm.P, wPlain(p.Lex, p.Lang)))
+			n.Props = append(n.Props, p)
+		}
+		long := "http://a.example/" + strings.Repeat("seg/", g.count([]int{64, 1024, 1100}, 200)) + "x"
+		p := &PProp{Kind: "res", IRI: long, Ref: long}
+		p.Nm = g.pname(&li)
+		g.triples = append(g.triples, wTriple(s, p.Nm.P, wIRI(long)))
+		n.Props = append(n.Props, p)
+	case "deep":
+		n.Props = append(n.Props, g.deepProp(env, s, vh.Pick(g.r, deepLevels)))
+	}
+	return n
+}
+
+// deepProp: a chain of d nested elements below the property (node elements, parseType Resource and
+// parseType Collection alternate at random)
+func (g *planGen) deepProp(env genEnv, s string, d int) *PProp {
+	p := &PProp{}
+	p.Sc, env = g.scope(env, 4, 10)
+	li := 0
+	p.Nm = g.pname(&li)
+	pred := p.Nm.P
+	if d <= 0 {
+		p.Kind, p.Lex, p.Lang = "lit", g.text(1), env.lang
+		g.triples = append(g.triples, wTriple(s, pred, wPlain(p.Lex, p.Lang)))
+		return p
+	}
+	deepNode := func(e genEnv, d int) (*PNode, string) {
+		n := &PNode{}
+		n.Sc, e = g.scope(e, 4, 10)
+		var o string
+		n.Subj, o = g.subj(e)
+		n.Props = []*PProp{g.deepProp(e, o, d-1)}
+		return n, o
+	}
+	switch g.r.Intn(3) {
+	case 0:
+		p.Kind = "pnode"
+		at := len(g.triples)
+		var o string
+		p.Node, o = deepNode(env, d)
+		rest := append([]string{}, g.triples[at:]...)
+		g.triples = g.triples[:at]
+		g.triples = append(g.triples, wTriple(s, pred, o))
+		g.triples = append(g.triples, rest...)
+	case 1:
+		p.Kind = "ptRes"
+		p.N = g.next
+		g.next++
+		g.triples = append(g.triples, wTriple(s, pred, wGen(p.N)))
+		p.Props = []*PProp{g.deepProp(env, wGen(p.N), d-1)}
+	default:
+		p.Kind = "ptColl"
+		c := g.next
+		g.next++
+		p.Cells = []int{c}
+		g.triples = append(g.triples, wTriple(s, pred, wGen(c)))
+		at := len(g.triples)
+		g.triples = append(g.triples, "")
+		it, o := deepNode(env, d)
+		g.triples[at] = wTriple(wGen(c), rdfNS+"first", o)
+		p.Items = []*PNode{it}
+		g.triples = append(g.triples, wTriple(wGen(c), rdfNS+"rest", wIRI(rdfNS+"nil")))
+	}
+	return p
+}
+
 // Plan generates a document plan and the triples it is meant to denote (order of RX.flatDoc).
 func genPlan(r *vh.Rng, feat map[string]int) (*PDoc, string, []string, bool) {
 	g := &planGen{r: r, used: map[[2]string]bool{}, feat: feat, budget: 3 + r.Intn(12)}
@@ -743,7 +946,18 @@ func genPlan(r *vh.Rng, feat map[string]int) (*PDoc, string, []string, bool) {
 	if r.Chance(3) {
 		k = 0
 	}
+	wideAt := -1
+	if r.Chance(3) {
+		if k == 0 {
+			k = 1
+		}
+		wideAt = r.Intn(k)
+	}
 	for i := 0; i < k; i++ {
+		if i == wideAt {
+			d.Nodes = append(d.Nodes, g.wideNode(env, vh.Pick(r, wideModes)))
+			continue
+		}
 		n, _ := g.node(env, 0)
 		d.Nodes = append(d.Nodes, n)
 	}
